@@ -497,6 +497,11 @@ func (u *Unit) oblige(st *State, kind, anchor string, goal T, human string) *Obl
 		u.assume(st, goal)
 		return nil
 	}
+	if u.opts.AssumePre && kind == "pre" {
+		u.assume(st, goal)
+		u.note("callee preconditions in " + u.name + " are assumed here (they are obligations of the plans that own them)")
+		return nil
+	}
 	if u.opts.LocksOnly {
 		// lock-discipline run: only guard obligations, lock preconditions and lock postconditions are
 		// obligations; everything else belongs to the other plans
